@@ -7,7 +7,7 @@ for d in seeded/${1:-*}/; do
   id=$(basename "$d"); prop=$(python3 -c "import json;print(json.load(open('$d/meta.json'))['property'])")
   if ! git -C /repo apply "/verif/$d/patch.diff" 2>/dev/null; then echo "$id: patch no longer applies" | tee "$d/result.txt"; continue; fi
   out=$(./check "$prop" quick 2>&1); rc=$?
-  git -C /repo checkout -- . ; git -C /repo clean -qfd -- . 2>/dev/null
+  git -C /repo checkout -- .
   if [ $rc -eq 1 ] && echo "$out" | grep -q "^VIOLATION property=$prop"; then
     echo "$id: DETECTED by ./check $prop quick: $(echo "$out" | grep '^VIOLATION' | sed -E 's/.*obligation="([^"]*)".*/\1/' | head -3 | tr '\n' ';')" | tee "$d/result.txt"
   else
